@@ -133,7 +133,7 @@ func runC03(w *World, r *Report, tier string) {
 			}
 		}
 		// can this return carry a nil error?
-		ev := ret.Results[len(ret.Results)-1]
+		ev := rres(path, ret)[len(ret.Results)-1]
 		if mi, ok := ev.(*ssa.MakeInterface); ok {
 			if c, ok := mi.X.(*ssa.Call); ok && w.callKey(c) == "xmpp.NewConnError" {
 				return
@@ -349,7 +349,7 @@ func runC03(w *World, r *Report, tier string) {
 				errAfter := false
 				walkPaths(after(c.(ssa.Instruction)), nil, nil, 2000, func(path []ssa.Instruction, end pathEnd) {
 					if ret, ok := path[len(path)-1].(*ssa.Return); ok {
-						ev := ret.Results[len(ret.Results)-1]
+						ev := rres(path, ret)[len(ret.Results)-1]
 						if !isNilConst(ev) && !pathAssertsBefore(f, c.(ssa.Instruction), ev) {
 							errAfter = true
 						}
@@ -378,7 +378,7 @@ func runC03(w *World, r *Report, tier string) {
 			}
 			n++
 			ret, ok := path[len(path)-1].(*ssa.Return)
-			if !ok || ret.Results[0] != ev {
+			if !ok || rres(path, ret)[0] != ev {
 				bad = "a failed negotiation is not reported with NewSession's error"
 			}
 			if countOn(path, w.isCallTo("xmpp.Client.Disconnect", "xmpp.Transport.Close")) == 0 {
